@@ -156,11 +156,10 @@ def _label_checkers(repo):
         cfg = cfg_of(f)
         for n in cfg.stmt_nodes():
             if isinstance(n.stmt, ast.Raise):
-                for t, pol in cfg.guard_facts(n):
-                    if ".data_type != " in t and pol is True:
-                        l, r = t.split(" != ")
-                        names = {l.strip(), r.strip()}
-                        if any(x in f.params for x in names):
+                for e, pol, g in cfg.guard_literals(n):
+                    if pol is True and isinstance(e, ast.Compare) and len(e.ops) == 1 and isinstance(e.ops[0], ast.NotEq):
+                        sides = [e.left, e.comparators[0]]
+                        if any(isinstance(x, ast.Attribute) and x.attr == "data_type" for x in sides) and any(isinstance(x, ast.Name) and x.id in f.params for x in sides):
                             out.add(f)
     return out
 
@@ -432,7 +431,7 @@ def r5_continuity(chk, repo, rule="C12.R5"):
         chk.check(ok and ("call:iter" in prov or ".iter" in prov), rule, gi, lp, "get_iter consumes the processor output without the continuity check (overlapping or gapped chunks would be returned as valid)", site_text="get_iter: iterates strax.continuity_check(<processor>.iter())")
     cc = repo.func("continuity_check", CHUNK)
     cfg = cfg_of(cc)
-    rs = [n for n in cfg.stmt_nodes() if isinstance(n.stmt, ast.Raise) and any(t in ("chunk.start != last_end", "last_end != chunk.start") and p for t, p in cfg.guard_facts(n))]
+    rs = [n for n in cfg.stmt_nodes() if isinstance(n.stmt, ast.Raise) and (("chunk.start != last_end", True) in cfg.guard_facts(n))]
     chk.check(bool(rs), rule, cc, None, "continuity_check no longer raises on start != previous end", site_text="continuity_check: raise on chunk.start != last_end")
     ys = [n for n in cfg.stmt_nodes() if not isinstance(n.stmt, COMPOUND) and any(isinstance(x, ast.Yield) for x in ast.walk(n.stmt))]
     for y in ys:
